@@ -59,6 +59,7 @@ def run(ctx):
     ctx.do(rule_built_elements_counted)
     ctx.do(rule_reference_flag_knows_the_whitelist)
     ctx.do(rule_custom_name_sets_agree)
+    ctx.do(rule_override_returns_super_flag)
     ctx.do(rule_privileged_keys)
     ctx.do(rule_raw_passthrough)
     ctx.do(rule_extra_props)
@@ -78,6 +79,9 @@ def run(ctx):
     ctx.do(rule_only_21_mechanisms, rule_id="C04.version-constants")
     from .pitfalls import rule_loop_flags_monotone
     ctx.do(rule_loop_flags_monotone, "C04.flag-back", ("stix2.base", "stix2.properties"))
+    # the property tables of registered extension classes are what decides "defined or custom" for every later object
+    from . import C17
+    ctx.do(C17.rule_registry_class_attr, rule_id="C04.history-independence")
     from .hidden_state import rule_no_hidden_state
     ctx.do(rule_no_hidden_state, "C04.history-independence")
     from .pitfalls import rule_loops_not_cut_short
@@ -399,6 +403,41 @@ def rule_custom_name_sets_agree(ctx):
                   "differs for two spellings of the same object, and is true although a strict parse accepts the serialisation"
                   % ", ".join(missing), file=init.module.relpath, line=a_.lineno, function=init.qualname,
                   expected="the same defined-name sets subtracted in both computations", found=sorted(s_))
+
+
+def rule_override_returns_super_flag(ctx):
+    """_Observable._check_property overrides the base method to add the 2.0 object-reference check.  What it RETURNS is the
+    custom-content flag the base method computed (the cleaner's answer for that property): a constant, or an early
+    `return False`, forgets that a reference property admitted a custom type, so the object -- and the bundle or observed-data
+    around it -- report no custom content although a strict parse of the serialisation is refused."""
+    run = ctx.run
+    prog = ctx.prog
+    R = "C04.flag-back"
+    from .C02 import is_super_call
+    n = 0
+    for cls in prog.classes.values():
+        if cls.module.relpath.startswith("stix2/test"):
+            continue
+        fi = cls.methods.get("_check_property")
+        sbase_ = prog.cls("stix2.base::_STIXBase")
+        if fi is None or cls is sbase_ or sbase_ not in (cls.mro or []):
+            continue
+        n += 1
+        fl = flow_of(fi)
+        sup = [a_ for a_ in body_walk(fi.node) if isinstance(a_, ast.Assign) and isinstance(a_.value, ast.Call) and is_super_call(a_.value, "_check_property")]
+        var = norm(sup[0].targets[0]) if sup else None
+        bad = []
+        for r in returns_of(fi):
+            if r.value is None or not (isinstance(r.value, ast.Name) and r.value.id == var or (
+                    isinstance(r.value, ast.Call) and is_super_call(r.value, "_check_property"))):
+                bad.append(short(r, 40))
+        run.check(bool(sup or any(isinstance(r.value, ast.Call) for r in returns_of(fi))) and not bad, R,
+                  key(fi.module.relpath, fi.qualname, "returns-the-base-method's-flag"),
+                  "the override does not return the flag the base _check_property computed on every path: custom content found by "
+                  "a property cleaner is not reported for this object", file=fi.module.relpath, line=fi.node.lineno,
+                  function=fi.qualname, expected="has_custom = super()._check_property(...); ...; return has_custom", found=bad)
+    if n < 1:
+        raise AnalysisError("no override of _check_property found (anchor lost: _Observable)")
 
 
 _PLAIN_TYPES = ("dict", "str", "list", "tuple", "set", "bytes", "int", "float", "bool", "collections.abc.Mapping", "Mapping",
